@@ -2,6 +2,7 @@
 pub mod c01;
 pub mod c02;
 pub mod c03;
+pub mod c04;
 pub mod c05;
 pub mod c07;
 pub mod c08;
@@ -16,7 +17,7 @@ pub mod common;
 use crate::core::Check;
 
 pub fn registry() -> Vec<&'static dyn Check> {
-    vec![&c01::C01, &c02::C02, &c03::C03, &c05::C05, &c07::C07, &c08::C08, &c09::C09, &c10::C10, &c11::C11, &c12::C12, &c13::C13, &c14::C14]
+    vec![&c01::C01, &c02::C02, &c03::C03, &c04::C04, &c05::C05, &c07::C07, &c08::C08, &c09::C09, &c10::C10, &c11::C11, &c12::C12, &c13::C13, &c14::C14]
 }
 
 pub fn find(id: &str) -> Option<&'static dyn Check> {
